@@ -75,6 +75,10 @@ def classify_violations(pid, vio, known):
 
 def replay(pid, path):
     data = json.load(open(path))
+    if not data.get("group") or data.get("case") is None:
+        print(json.dumps({"no_longer_checks": data.get("no_longer_checks"), "note": data.get("note")}, indent=1))
+        print(f"VIOLATION property={pid} replay={path} no-failing-input-found")
+        return 1
     G = load_group(data["group"])
     oracle = getattr(G, "ORACLES", {}).get(pid)
     c = data["case"]
